@@ -41,6 +41,11 @@ func genC09(r *simrt.Rand, tier string, idx int) *hx.Program {
 			// timestamps, and with them segment last-write times, need not be monotone
 			p.Ops = append(p.Ops, hx.Op{K: "skew", A: []int64{int64(r.Intn(60000)) - 30000}})
 		case k < 92:
+			if r.Pct(30) {
+				// what the cleaner's tick does first: a full (or aged) active segment is rolled, the newest segment
+				// is empty when the limits are applied
+				p.Ops = append(p.Ops, hx.Op{K: "roll"})
+			}
 			p.Ops = append(p.Ops, hx.Op{K: "clean", A: []int64{int64(r.Intn(3)), int64(r.Uint64() >> 1)}})
 		default:
 			p.Ops = append(p.Ops, hx.Op{K: "reopen"})
@@ -267,6 +272,12 @@ func (c *c09) exec(t *testing.T, prog *hx.Program, dec *simrt.Decider, verbose b
 				simrt.Sleep(time.Duration(op.Arg(0, 1)) * time.Millisecond)
 			case "skew":
 				skew = op.Arg(0, 0) * int64(time.Millisecond)
+			case "roll":
+				if split, err := h.log.checkAndPerformSplit(); err != nil {
+					h.fail("C09/roll", "C09/roll/error", "checkAndPerformSplit: %v", err)
+				} else if split {
+					h.s.Count("probe.clean_with_empty_newest_segment")
+				}
 			case "reopen":
 				if err := h.log.Close(); err != nil {
 					h.fail("C09/close", "C09/close", "%v", err)
